@@ -190,6 +190,19 @@ pub fn judge_transition(o: &mut Outcome, t: &GTarget, lt: &LibTransition, next: 
     true
 }
 
+/// The acceptance statistic (sum over the leaves of the last doubling, leaf count) Algorithm 6 assigns
+/// to a traced transition, with its tolerance; None when the reference cannot decide the transition
+/// (a decision inside its margin) or disagrees on the tree's shape (judged by C03, not here).
+pub fn reference_statistic(t: &GTarget, lt: &LibTransition, eps_b: f64) -> Option<(f64, usize, f64)> {
+    let feed = Feed { dirs: lt.dirs.clone(), merge_us: lt.merge_us.clone(), accept_us: lt.accept.iter().map(|a| a.0).collect(), ..Default::default() };
+    let r = nuts_transition(t, &lt.pos, &lt.mom, lt.logu, lt.eps, eps_b, feed, 12);
+    if r.ambiguous.is_some() || r.structure_error.is_some() || r.stop == Stop::FeedExhausted || r.depth != lt.depth || r.n_alpha != lt.n_alpha {
+        return None;
+    }
+    let tol = r.alpha_tol + 1e-4 * (r.n_alpha as f64) * if eps_b > 1e-10 { 1.0 } else { 1e-6 };
+    Some((r.alpha, r.n_alpha, tol))
+}
+
 /// The run was cut off by the evaluation budget in the middle of a transition. Decide whether that
 /// is a hang: if Algorithm 6, fed the draws traced so far, stops (U-turn, stopped sub-tree or
 /// divergence) at an earlier doubling than the library had already reached, the library kept
@@ -257,6 +270,11 @@ where
         target = crate::props::c14::gen_support_target(&mut g);
         support_init = Some(crate::props::c14::support_start(&mut g, &target));
         o.count("probe_bounded_support_runs", 1);
+    }
+    // an additive constant of the log-density (f64 runs only: in f32 it would legitimately swamp the energies)
+    if params.get("offset").is_some() {
+        target.offset = pf(params, "offset");
+        o.count("probe_log_density_offset_runs", (target.offset != 0.0) as u64);
     }
     target.eval_budget = 60_000;
     let d = target.d;
@@ -361,7 +379,11 @@ impl Scenario for NutsTransitions {
         if g.bool(1, 40) {
             return json!({"float": "f64", "wide": true, "gseed": g.u64(), "seed": g.u64(), "n_collect": 3, "n_discard": 0, "accept": fbits(0.8), "start_scale": fbits(1.0)});
         }
-        json!({"float": *g.pick(&["f64", "f64", "f64", "f32"]), "gseed": g.u64(), "seed": g.u64(), "n_collect": g.usize(1, 6), "n_discard": g.usize(0, 14), "accept": fbits(g.f64_in(0.55, 0.97)), "start_scale": fbits(g.log_uniform(0.1, 4.0)), "reposition": g.bool(1, 4), "support": g.bool(1, 6)})
+        let float = *g.pick(&["f64", "f64", "f64", "f32"]);
+        // unnormalised densities carry arbitrary additive constants: 1 run in 5 (f64) has one of
+        // magnitude 1e2..1e9, either sign
+        let offset = if float == "f64" && g.bool(1, 5) { g.log_uniform(1e2, 1e9) * if g.bool(1, 2) { 1.0 } else { -1.0 } } else { 0.0 };
+        json!({"float": float, "gseed": g.u64(), "seed": g.u64(), "n_collect": g.usize(1, 6), "n_discard": g.usize(0, 14), "accept": fbits(g.f64_in(0.55, 0.97)), "start_scale": fbits(g.log_uniform(0.1, 4.0)), "reposition": g.bool(1, 4), "support": g.bool(1, 6), "offset": fbits(offset)})
     }
     fn execute(&self, p: &Value, ws: bool) -> Outcome {
         if ps(p, "float") == "f32" {
